@@ -40,10 +40,7 @@ func (c c10Live) writeDst() string {
 func (c c10Live) expectation() string {
 	if (c.Fault == "read-syscall" || c.Fault == "write-syscall") && (c.Errno == "EPERM" || c.Errno == "EACCES") {
 		// a permission error is a system call error too - the one kind that is not recoverable
-		if c.Fault == "write-syscall" && c.WriteDst == "multicast" && c.N == 0 {
-			return "either" // (the initial RA: fatal anyway, but see below)
-		}
-		return "fatal"
+		return "fatal" // (also on the initial RA, whose failure the code treats as fatal anyway)
 	}
 	switch c.Fault {
 	case "timeouts":
@@ -125,20 +122,28 @@ func c10LiveProp(t *testing.T, k *verifkit.Kit) func(c c10Live) error {
 			reads    []simRead
 			writes   []simWrite
 			panicV   any
+			leaked   bool
 		)
 		if c.Monitor {
 			r := runMonitor(t, monScenario{Events: events, StopNS: c.StopNS, DialFail: dial, NoStop: c.StopNS == 0, WaitNS: int64(200 * time.Second)})
 			w, returned, retAt, retErr, stopAt, reads, panicV = r.W, r.Returned, r.RetAt, r.RetErr, r.StopAt, r.Reads, r.Panic
+			leaked = r.Leaked
 		} else {
 			cfg := c09Cfg()
 			r := runAdvertiser(t, advScenario{Cfg: cfg, Fwd0: true, Events: events, StopNS: c.StopNS, Terminate: c.Terminate, Lat: lat, DialFail: dial,
 				NoStop: c.StopNS == 0, WaitNS: int64(200*time.Second) + 4*c.LatNS}, nil)
 			w, returned, retAt, retErr, stopAt, reads, writes, panicV = r.W, r.Returned, r.RetAt, r.RetErr, r.StopAt, r.Reads, r.Writes, r.Panic
+			leaked = r.Leaked
 		}
 		if panicV != nil || w == nil {
 			return verifkit.Violf("panic", "panic in bubble: %v", panicV)
 		}
 		tl := w.timeline()
+		if leaked && returned {
+			// "stops every activity of that interface's task together": the task has returned, yet goroutines of it are
+			// still blocked with nobody left to wake them (the bubble ended in a deadlock report)
+			return verifkit.Violf("C10/goroutines-left-behind", "Run returned at %v, but goroutines started by the task are still blocked when everything else has ended\n%s", retAt, tl)
+		}
 		// when did the fault actually hit?
 		fault := time.Duration(-1)
 		switch {
